@@ -572,3 +572,35 @@ fn c11_closest_considers_every_node_of_the_table() {
     core::mem::forget(r);
     core::mem::forget(t);
 }
+
+
+// =============================================================================================
+// C12/C14: reset_id against the contracts of to_owned_nodes ("all nodes of the table") and add:
+// the table switches to the new id FIRST, is emptied, and every old node is re-admitted through
+// add() (so it is re-bucketed by its distance to the NEW id and vetted again)
+// =============================================================================================
+fn stub_to_owned_nodes(_t: &RoutingTable) -> Vec<Node> {
+    // the table's nodes, as a fresh heap Vec (reset_id consumes and frees it)
+    vec![node_aged(idb(0x80, 1, 0), addr(2, 7000), 1_000), node_aged(idb(0x40, 1, 0), addr(5, 7000), 1_000)]
+}
+
+#[kani::proof]
+#[kani::unwind(23)]
+#[kani::stub(std::time::Instant::now, clock::mock_now)]
+#[kani::stub(std::time::Instant::elapsed, clock::mock_elapsed)]
+#[kani::stub(RoutingTable::to_owned_nodes, stub_to_owned_nodes)]
+#[kani::stub(RoutingTable::add, stub_table_add)]
+fn c12_reset_id_switches_the_id_first_and_readmits_every_node_through_add() {
+    let mut t = RoutingTable::new(idb(0, 0, 0));
+    let nb: u8 = kani::any();
+    kani::assume(nb != 0);
+    set_stats(&mut t, (3, 30.0, 2, 20.0, 9));
+    t.reset_id(idb(nb, 3, 0));
+    assert!(t.id() == &idb(nb, 3, 0), "re-keying sets the new id");
+    assert!(unsafe { TADD_CALLS } == 2, "C12: every old node is re-admitted through add() (re-bucketed and vetted), exactly once");
+    assert!(unsafe { TADD_TABLE_ID0 } == nb && unsafe { TADD_BUCKETS_EMPTY_AT_FIRST }, "C12/C14: the table already carries the NEW id, and is empty, when the first node is re-admitted");
+    let ids = unsafe { TADD_IDS };
+    assert!(ids[0] == 0x80 && ids[1] == 0x40);
+    assert!(stats(&t) == (3, 30.0, 2, 20.0, 9), "C20: the statistics survive re-keying");
+    core::mem::forget(t);
+}
